@@ -61,7 +61,7 @@ Lemma good_failing_runs :
 Proof. eexists _, _, _. split; [vm_compute; reflexivity|]. split; vm_compute; reflexivity. Qed.
 
 (* ---- arrays ---- *)
-(* inside names_apart: the evaluator prints what the reference prints ("8" once, then the array) and passes *)
+(* the evaluator prints what the reference prints ("8" once, then the array) and passes *)
 Lemma arrays_agree :
   names_apart sparr_good = true /\
   exists rs sk stk, run_interp 60 sparr_good [] = TDone rs sk stk /\ all_passed rs = true /\
@@ -69,28 +69,14 @@ Lemma arrays_agree :
     ref_tests 60 sparr_good = Some [(4%N, Ok (CNormal, [(7%N, (false, VArr [7; 8; 9]%Z))]) [56; 10; 91; 55; 44; 32; 56; 44; 32; 57; 93; 10]%N)].
 Proof. split; [vm_compute; reflexivity|]. eexists _, _, _. repeat split; vm_compute; reflexivity. Qed.
 
-(* the first element of a literal is evaluated twice: with a call that prints there, the text differs from the reference's
-   (condition (d) of names_apart is needed) *)
-Definition refutes_text (sp : sprogram) (fuel : nat) : Prop :=
-  names_apart sp = false /\
-  exists genv gout rs sk stk,
-    eval_globals (pfns (sp_prog sp)) fuel (pglobals (sp_prog sp)) [] [] = Ok genv gout /\
-    (forall sh, In sh (sp_shadows sp) -> exists r out, ref_test (pfns (sp_prog sp)) fuel genv (sh_body sh) = Ok r out) /\
-    run_interp fuel sp [] = TDone rs sk stk /\
-    ~ agree_run (pfns (sp_prog sp)) fuel genv (sp_shadows sp) rs.
-
-Lemma refuted_first_element_twice :
-  refutes_text sparr_twice 60 /\
+(* the first element of a literal may be a call that prints: it is evaluated ONCE (fix 38fa340; before it the evaluator
+   printed "8" twice here and this program refuted interp_correct).  The program is inside names_apart, the evaluator model
+   prints the reference's text and passes *)
+Lemma first_element_once_agrees :
+  names_apart sparr_twice = true /\
   ref_tests 60 sparr_twice = Some [(4%N, Ok (CNormal, [(7%N, (false, VArr [8; 9]%Z))]) [56; 10]%N)] /\
-  exists rs sk stk, run_interp 60 sparr_twice [] = TDone rs sk stk /\ map tr_out rs = [[56; 10; 56; 10]]%N.
-Proof.
-  split; [|split; [vm_compute; reflexivity|eexists _, _, _; split; vm_compute; reflexivity]].
-  split; [vm_compute; reflexivity|].
-  eexists _, _, _, _, _; split; [vm_compute; reflexivity|]; split;
-  [ intros sh H; repeat (destruct H as [H|H]; [subst sh; eexists _, _; vm_compute; reflexivity|]); destruct H
-  | split; [vm_compute; reflexivity|];
-    intros A; cbv in A; repeat match goal with H : _ /\ _ |- _ => destruct H end; discriminate ].
-Qed.
+  exists rs sk stk, run_interp 60 sparr_twice [] = TDone rs sk stk /\ all_passed rs = true /\ map tr_out rs = [[56; 10]]%N.
+Proof. split; [vm_compute; reflexivity|]. split; [vm_compute; reflexivity|]. eexists _, _, _. repeat split; vm_compute; reflexivity. Qed.
 
 (* an index out of range inside a shadow test: the reference faults there, the evaluator ends nanoc with status 1 after "1" *)
 Lemma oob_at_compile_time :
